@@ -110,6 +110,21 @@ def directed_schedules(r, n, kills=True):
     # 7. delayed vote request of the established leader reaches a node that voted for somebody else in that term
     a, b, c = (pick(3) + pick(3))[:3] if n >= 3 else (1, 2, 3)
     out.append(('late-vote-request-of-leader', [[0, c, []], [0, a, [p for p in P if p not in (a, c)]], [9, a], [1, a, c, 0], [9, c], [10, a, c, 2, 0, 0]]))
+    # 8. Figure 8: a leader keeps an uncommitted tail of its earlier term, is re-elected in a later term and appends
+    #    its noop; a follower catches up one capped request at a time, so the majority match index sits inside the
+    #    old-term region for several acknowledgements: nothing there may be committed by counting replicas
+    a = r.choice(P); others = [p for p in P if p != a]
+    s = [[0, a, others], [9, a]]
+    for b2 in others: s += [[1, a, b2, 0], [3, a, b2, 0]]
+    s += [[9, a]]
+    for k in range(r.range(3, 6)): s += [[5, a, 70 + k]]
+    s += [[9, a]]
+    for b2 in others: s += [[2, a, b2]]                   # the tail reaches nobody
+    s += [[8, a], [9, a], [0, a, others], [9, a]]          # step down, re-elected in the next term, noop appended
+    for _ in range(8):
+        for b2 in r.shuffle(others)[:maj - 1]: s += [[1, a, b2, 0], [3, a, b2, 0], [9, a]]
+        s += [[6, a], [9, a]]
+    out.append(('old-term-tail-slow-catchup', s))
     return out
 
 # ---------------------------------------------------------------- oracles (each returns None or (class, why))
@@ -303,12 +318,12 @@ def cluster_runs(run, ncases, length, kills, faults=True):
     r = run.rng('cluster')
     cases = []; dist = {}
     for k in range(ncases):
-        n = 3 if k % 3 else 5
+        n = (5, 3, 4, 3)[k % 4]    # even sizes too: a majority of 4 is 3, where median/quorum slips show
         s, t = gen_schedule(r, n, length, faults=faults, kills=kills)
         cases.append([n, r.choice([1, 2, 3]), s])
         for kk, v in t.items(): dist[kk] = dist.get(kk, 0) + v
     for k in range(max(4, ncases // 10)):
-        n = 3 if k % 2 else 5
+        n = (5, 3, 4)[k % 3]
         for name, sch in directed_schedules(r, n, kills):
             cases.append([n, r.choice([1, 2]), sch]); dist['directed:' + name] = dist.get('directed:' + name, 0) + 1
     outs = core.probe_parallel('cluster', cases, jobs=12, timeout=1500)
@@ -363,7 +378,7 @@ def check_cluster_property(run, props_file, cone, oracles, kills=False, quick=(1
         dist['terms-with-a-leader'] = sum(len(leaders_by_term(o)) for o in outs if not isinstance(o, str))
         dist['max-commit-sum'] = sum(max(nd[2] for obs, _ in o for nd in obs) for o in outs if not isinstance(o, str))
         run.add_cases(ok, len({json.dumps(c) for c in cases}), [{'n': cases[0][0], 'cap': cases[0][1], 'schedule': cases[0][2][:12]}], dist,
-                      'cluster level: 3- and 5-node clusters of real Raft objects over a simulated network, seeded schedules of %d+ labels (elections with partial vote delivery, AppendEntries delivery/drop/duplication/delay, acks dropped/duplicated/delayed, client writes, heartbeats, same-term step-downs, restarts%s, stray vote requests)' % (length, ' incl. kills' if kills else ''))
+                      'cluster level: 3-, 4- and 5-node clusters of real Raft objects over a simulated network, seeded schedules of %d+ labels (elections with partial vote delivery, AppendEntries delivery/drop/duplication/delay, acks dropped/duplicated/delayed, client writes, heartbeats, same-term step-downs, restarts%s, stray vote requests)' % (length, ' incl. kills' if kills else ''))
     except Broken as b:
         broken.append(('harness', b.what, b.detail))
     return flow.conclude(run, broken, violations)
